@@ -387,7 +387,8 @@ func runC09(c *Ctx) {
 				}
 			}
 		})
-		c.check(adds == 0 && lower >= 2 && upper >= 2, v, "validator", v.Pos(), "overflow-free bounds on both fields", fmt.Sprintf("the validator %s is not a set of overflow-free bounds on both slot fields (additions on caller values=%d, lower tests=%d, upper tests=%d): a slot whose Index+Length wraps around passes", v.Name(), adds, lower, upper))
+		_, _ = lower, upper // which comparisons it makes is decided exactly (per branch polarity) by C09-R5 "save-area validator"
+		c.check(adds == 0, v, "validator", v.Pos(), "no addition on caller-controlled values (cannot wrap around)", fmt.Sprintf("the validator %s is not a set of overflow-free bounds on both slot fields (additions on caller values=%d, lower tests=%d, upper tests=%d): a slot whose Index+Length wraps around passes", v.Name(), adds, lower, upper))
 	}
 
 	// ------------------------------------------------------------------------------------------------ R2
@@ -417,6 +418,29 @@ func runC09(c *Ctx) {
 				}
 				return stripConv(sl.High) == stripConv(st.Val)
 			})
+			if !ok {
+				// a constant wi: the matching constant re-slice may as well come first (data[:0]; wi = 0), as long as
+				// nothing touches data in between
+				if k2, isK := constInt(st.Val); isK {
+					for _, d := range storesTo(fn, dataF) {
+						sl, isSl := stripConv(d.Val).(*ssa.Slice)
+						if !isSl || !loadOfField(sl.X, dataF) || sl.Low != nil || sl.High == nil {
+							continue
+						}
+						if k1, ok1 := constInt(sl.High); ok1 && k1 == k2 && dominatesInstr(d.Instr, st) {
+							later := false
+							for _, d2 := range storesTo(fn, dataF) {
+								if d2.Instr != d.Instr && dominatesInstr(d.Instr, d2.Instr) {
+									later = true
+								}
+							}
+							if !later {
+								ok = true
+							}
+						}
+					}
+				}
+			}
 			c.check(ok, fn, "wi store", st.Pos(), "data is re-sliced to the new wi", "wi changes but a path leaves the method without re-slicing data to it ("+why+"): len(data) and wi disagree, later appends/slices use the wrong end")
 		}
 	}
@@ -637,11 +661,12 @@ func runC09(c *Ctx) {
 				}
 			}
 			good := false
-			for _, a := range storesTo(fn, wi) {
-				amountV, ok := incrementOf(a.Val, wi)
+			for _, a := range deepStoresTo(fn, wi) {
+				amountV, ok := incrementOf(a.Store.Val, wi)
 				if !ok || appended == nil {
 					continue
 				}
+				amountV = a.translate(amountV)
 				if name == "WriteByte" {
 					good = isConstInt(amountV, 1)
 					continue
